@@ -11,6 +11,14 @@ CONSTANTS
   AtomicAsk = FALSE
   WithFailover = TRUE
   FixRefreshOnDialError = FALSE
+  StepwiseRefresh = FALSE
+  ClearBeforeFill = FALSE
+  MaxTicks = 0
+  LazyConnect = FALSE
+  AsyncRedirectDial = FALSE
+  TrackOrder = FALSE
+  WithDemotion = FALSE
+  ReadonlyEverywhere = TRUE
 INVARIANTS EqualsReference EffectOnce SingleCopy CopyIsReference NoLostKey ErrorsOnlyWhileStale
 PROPERTIES ConvergesAfterDialError
 CHECK_DEADLOCK FALSE
